@@ -30,7 +30,8 @@ RULE = ("exhaustive part: every explicit repeat count 0..130 as {k}, {0,k}, {k/2
 ASSUMPTIONS = [
     "regex semantics are CPython's re module (re.fullmatch is the matcher of record)",
     "negated classes in recipes always leave a printable-ASCII character (the generator's alphabet)",
-    "patterns use no inline flags, no \\b, no mid-pattern anchors (not listed as supported or unsupported)",
+    "generated recipes use no inline flags, no \\b, no mid-pattern anchors (not listed as supported or unsupported); six corner patterns "
+    "with flags scoped to a group are included because the generator accepts them today",
 ]
 BUDGET = {"quick": (1500, 4), "thorough": (25000, 16)}
 
@@ -65,6 +66,7 @@ CORNERS = [
     "[\udf00-\ue100]{5}", "[\U00010000-\U0010ffff]{3}", "[^\x21-\x7e]{6}", "[^!-~]", "[^a-\uffff]{4}", "[^\\w\\d]{4}",
     "[^a-f\\d]{8}", "[^\\da-f]{8}", "x[^y]z", "[\\d\\w-]{6}", "[a\\-z]{4}", "[]a]{3}", "[\\]\\^]{3}", "[-a]{3}",
     "(?P<n>a)(?:b)(c){2}", "^$", "^a*$", "(?:)", "(?:|a)", "a|", "\\.\\\\\\n\\t", "\\$\\^\\*\\+\\?", "é{3}ß?€+",
+    "(?s:<.>)=.", "(?i:ab)c.", "(?s:.)(?-s:.).", "x(?s:.+)y.{3}", "(?a:\\w)x.", "(?s:.){40}.{40}",
     "(?:a{2}){3}{2}" if False else "(?:(?:a{2}){3}){2}", "a{0}", "a{0,0}b", "(?:a?){30}", "\\d{1,2}-\\w{0,3}_.{2}",
 ]
 
